@@ -71,7 +71,10 @@ def _build(base, parents, name="proj"):
     (d / "top_skipped.py").write_text(triggers.T["magic.py"][3].replace("3975", "5503"))
     (d / "app" / "half_skipped.py").write_text(triggers.T["magic.py"][3].replace("3975", "5507").replace("price", "rate") + "\n\n" + triggers.T["nest.py"][3])
     with open(d / ".thailint.yaml", "a") as fh:
-        fh.write("magic-numbers:\n  ignore:\n    - app/half_skipped.py\n")
+        fh.write("magic-numbers:\n  ignore:\n    - app/half_skipped.py\n    - tests/\n")
+        # per-linter ignore lists naming a directory the project does not have (but a parent directory may be called so)
+        for sec in ("srp", "print-statements", "stateless-class", "method-property", "collection-pipeline", "nesting", "lbyl", "unwrap-abuse"):
+            fh.write("%s:\n  ignore:\n    - tests/\n    - build/\n" % sec)
         # placement rules are written relative to the project as well
         fh.write("file-placement:\n  directories:\n    app:\n      deny:\n        - pattern: '.*\\.rs$'\n          reason: no rust sources in app\n"
                  "  global_deny:\n    - pattern: '^top_.*\\.py$'\n      reason: no top-level modules\n")
